@@ -249,6 +249,7 @@ PROPS['C08'] = {
         H('c08_lookup_nomap', 'types', 'quick', 1500, 10, '2 sections, exactly one without a map, any position'),
         H('c08_lookup_nested', 'types', 'quick', 1500, 10,
           'an index section holding another index map (any two offsets) with 1 token, any position: offsets compose'),
+        H('c08_lookup_hermes_section', 'hermes', 'thorough', 1500, 10, 'a Hermes map as the only section of an index map, any offset, any position'),
         H('c08_flat_step', 'types_flat', 'quick', 900, 10,
           'lifted per-token body of flatten with a recording mock builder: any token of a section map (2 sources: #0 with '
           'contents, #1 without and ignored; 1 name; ids may dangle), any offsets whose sums fit u32, any mock answers'),
@@ -315,8 +316,9 @@ PROPS['C15'] = {
         H('c15_slice_ascii_n4', 'sourceview', 'quick', 900, 10, 'any 4 lower-case letters, any col, span < 2^31'),
         H('c15_slice_big', 'sourceview', 'quick', 900, 10, 'line "xy", any col and span (full u32)'),
     ] + [
-        H('c15_slice_wide_%s' % k, 'sourceview', 'quick' if k in ('200', '120') else 'thorough', 1500, 12,
-          'line of 3 chars of kinds %s (0 = a, 1 = e-acute 2 bytes/1 unit, 2 = U+1F44C 4 bytes/2 units), any col, span < 8' % k)
+        H('c15_slice_wide_%s' % k, 'sourceview', 'quick' if k in ('200', '020') else 'thorough', 1800, 12,
+          'line of 3 chars of kinds %s (0 = a, 1 = e-acute 2 bytes/1 unit, 2 = U+1F44C 4 bytes/2 units), any col, span < 8' % k,
+          allow_uncovered=None if k[0] == '2' else ['starting inside the leading surrogate pair'])
         for k in ('200', '020', '002', '120', '212', '222', '101', '021')
     ],
     'assumptions': [SV_STUBS, 'texts over a 4-letter alphabet {a, b, LF, CR} (all terminator placements; letters stand for any non-terminator byte)'],
